@@ -1,8 +1,11 @@
 import OH.Driver.Util
 import OH.Driver.C19
 import OH.Driver.Ev
+import OH.Driver.Props
 import OH.Driver.C20
 import OH.Driver.C14
+import OH.Driver.C15
+import OH.Driver.Cal
 /-
 `ohdriver`: reads protocol lines on stdin, prints one verdict line per input line.
 Only core + OH.Model/OH.Driver imports (no Mathlib), so it links as a `lean_exe`.
@@ -13,8 +16,12 @@ def dispatch (op : String) (args impl : List String) : String :=
   let r :=
     if op.startsWith "et." then OH.Driver.C19.handle op args impl
     else if op.startsWith "ev." || op.startsWith "c01." then OH.Driver.Ev.handle op args impl
+    else if op.startsWith "c02." || op.startsWith "c03." || op.startsWith "c04." || op.startsWith "c08."
+        || op.startsWith "c16." || op.startsWith "c17." then OH.Driver.Props.handle op args impl
     else if op.startsWith "usv." then OH.Driver.C20.handle op args impl
     else if op.startsWith "sch." then OH.Driver.C14.handle op args impl
+    else if op.startsWith "cal." then OH.Driver.C15.handle op args impl
+    else if op.startsWith "chr." then OH.Driver.Cal.handle op args impl
     else none
   match r with
   | some v => v
